@@ -806,6 +806,9 @@ def c_mpi_atan2_plan(rng, fn):
         return (a, b) if va <= vb else (b, a)
     y = iv_(rng.randrange(4)); x = iv_(rng.randrange(4))
     if rng.random() < 0.08: y = (gen.FZERO, gen.FZERO)
+    # half-infinite and infinite sides (the corners handed to mpf_atan2 are then infinite)
+    if rng.random() < 0.12: y = (gen.FNINF, y[1]) if rng.random() < 0.5 else (y[0], gen.FINF)
+    if rng.random() < 0.12: x = (gen.FNINF, x[1]) if rng.random() < 0.5 else (x[0], gen.FINF)
     rec = {}
 
     def thunk():
@@ -831,7 +834,13 @@ def c_mpi_atan2_plan(rng, fn):
         if res[0] == gen.FZERO:
             return [0, 4]
         return [0, 1] if res[0][0] == 0 else [0, 3]
-    pts = (points(rng, y), points(rng, x))
+    def pts_of(s):
+        ps = points(rng, s)
+        big = Fraction(2) ** (prec + 40)
+        if s[0] == gen.FNINF: ps = ps[:3] + [-big, -big * big]
+        if s[1] == gen.FINF: ps = ps[:3] + [big, big * big]
+        return ps
+    pts = (pts_of(y), pts_of(x))
     return Case(fn, flat(y, x), thunk, ("atan2plan", y, x, pts, rec), prec, None, rounded=False, ret_mpf=False, desc=("atan2", y, x))
 
 
@@ -844,14 +853,46 @@ def atan2_spec(case, out):
     def ang(v, u):
         if v == 0 and u >= 0: return Fraction(0), Fraction(0)
         return _hp(v, prec + 20, lambda m: m.atan2(_mp(m, v), _mp(m, u)))
+    def val(t):
+        return math.inf if t == gen.FINF else -math.inf if t == gen.FNINF else (V(t) if t[1] else Fraction(0))
+    def ang_ext(vy, vx):
+        """enclosure of atan2 at a corner that may be infinite (None when undefined)"""
+        import mpmath
+        if vy in (math.inf, -math.inf) or vx in (math.inf, -math.inf):
+            with mpmath.workprec(prec + 200):
+                pv = mpf_value(mpmath.pi._mpf_)
+            plo, phi = pv * (1 - Fraction(1, 2 ** (prec + 150))), pv * (1 + Fraction(1, 2 ** (prec + 150)))
+            if vy in (math.inf, -math.inf) and vx in (math.inf, -math.inf): return None
+            if vy == math.inf: return plo / 2, phi / 2
+            if vy == -math.inf: return -phi / 2, -plo / 2
+            if vx == math.inf: return Fraction(0), Fraction(0)
+            return (plo, phi) if vy >= 0 else (-phi, -plo)
+        if vy == 0 and vx == 0: return None
+        return ang(vy, vx)
     def meets(lohi):
         below = lohi[0] > (V(b) if b[1] else 0)
         above = lohi[1] < (V(a) if a[1] else 0)
         return not (below or above)
+    # plans without an mpf_atan2 call: the end points are 0 and/or directed roundings of pi; they must enclose what the
+    # plan stands for ([0,0], [pi,pi], [0,pi], [-pi,pi])
+    if not rec.get("calls") and out[0] == 0 and len(out) > 1 and out[1] in (1, 3, 4):
+        import mpmath
+        with mpmath.workprec(prec + 200):
+            pv = mpf_value(mpmath.pi._mpf_)
+        plo, phi = pv * (1 - Fraction(1, 2 ** (prec + 150))), pv * (1 + Fraction(1, 2 ** (prec + 150)))
+        va = V(a) if a[1] else Fraction(0); vb = V(b) if b[1] else Fraction(0)
+        if vb < phi:
+            bad.append(("CONTAIN", "upper end point of mpi_atan2 is below pi although pi is attained"))
+        if out[1] == 1 and va > plo:
+            bad.append(("CONTAIN", "lower end point of mpi_atan2 is above pi on the negative real axis"))
+        if out[1] == 3 and va > -phi:
+            bad.append(("CONTAIN", "lower end point of mpi_atan2 is above -pi for a rectangle meeting the branch cut: angles next to -pi are missed"))
+        if out[1] == 4 and va != 0:
+            bad.append(("CONTAIN", "lower end point of mpi_atan2 is not 0 on the real axis"))
     for (cy, cx, rnd) in rec.get("calls", []):
-        vy = V(cy) if cy[1] else Fraction(0); vx = V(cx) if cx[1] else Fraction(0)
-        if vy == 0 and vx == 0: continue
-        lo, hi = ang(vy, vx)
+        e_ = ang_ext(val(cy), val(cx))
+        if e_ is None: continue
+        lo, hi = e_
         if rnd == "f" and (V(a) if a[1] else 0) > hi:
             bad.append(("CONTAIN", "mpf_atan2 rounded towards -inf lies above atan2 at its corner: the directed-rounding hypothesis fails"))
         if rnd == "c" and (V(b) if b[1] else 0) < lo:
